@@ -361,9 +361,37 @@ func (w *world) mkAdmin(variant string, a simrt.Action, acct *account, nonce uin
 			return nil
 		}
 		old := acc[rr.Intn(len(acc))]
+		// prefer a request that would be visible if it took effect again (its sender has not transacted since, the
+		// set has moved on), and a contract that forwards to the precompile
+		for i := range acc {
+			r := acc[(rr.Intn(len(acc))+i)%len(acc)]
+			var c2 types.AdminOPCmd
+			var at types.ValidatorAttr
+			if json.Unmarshal(r.cmd, &c2) != nil || json.Unmarshal(c2.Msg, &at) != nil {
+				continue
+			}
+			var pk crypto.PubKeyEd25519
+			copy(pk[:], at.PubKey)
+			cur, member := w.valRef[string(pk.Address())]
+			differs := (at.Cmd == types.ValidatorCmdRemoveNode && member) || (at.Cmd == types.ValidatorCmdUpdateNode && member && cur != at.Power) || (at.Cmd == types.ValidatorCmdAddPeer && !member)
+			if differs && w.nonces[r.sender] == at.Nonce+1 && r.sender != acct.addr {
+				old = r
+				break
+			}
+		}
 		req.cmd = old.cmd
 		req.direct, req.from = true, old.sender
-		c := w.contracts[rr.Intn(len(w.contracts))]
+		var fw []int
+		for i, rt := range w.contractRT {
+			if rt == 9 || rt == 10 {
+				fw = append(fw, i)
+			}
+		}
+		ci := rr.Intn(len(w.contracts))
+		if len(fw) > 0 && rr.Chance(4, 5) {
+			ci = fw[rr.Intn(len(fw))]
+		}
+		c := w.contracts[ci]
 		req.via = &c
 	case "replay", "replay-direct":
 		var acc []adminRec
